@@ -465,9 +465,9 @@ class UTPM(Ring, RawAlgorithmsMixIn):
         return self * rhs
 
     def __rtruediv__(self, rhs):
-        tmp = self.zeros_like()
-        tmp.data[0,...] = rhs
-        return tmp/self
+        # lift the constant like __add__ does (dtype promotion, UTPM-aware
+        # broadcasting), then divide
+        return (self.zeros_like() + rhs)/self
 
     def __iadd__(self,rhs):
         if isinstance(rhs,numpy.ndarray) and rhs.dtype == object:
